@@ -163,7 +163,7 @@ CHECKS["C15"] = {
     "level": "model_checking",
     "design_ref": "DESIGN.md section 0 (C15/C19/C20), section 4 C15",
     "technique": "TLA+ layout semantics (Layout.tla: SetField/GetField of a field descriptor on the bytes of a struct) as a trace specification; TLC generates the schemas (SchemaGen.tla: every field kind x default x union/group membership x alignment situation, layout consistency checked as an invariant); capnpc-go built from the working tree generates code for them and for the stored requests, the code is compiled and every generated accessor is called through reflection; TLC judges every recorded before/after byte image",
-    "text": "For 7035 TLC-generated struct layouts (quick: every 8th, rotating with the seed) plus the repository's stored requests (aircraft, rpc, group, util; scopes generated only): the generator succeeds, its output is byte-identical across 4-13 runs and compiles; for every struct and every field (descending into groups) the setter is called with boundary values on all-zero and all-one backgrounds with marker pointers in every slot and the after-image must equal SetField(before) exactly; getters must return GetField on patterned bytes; New/Set/Has of pointer fields may change only their slot and the discriminant; getters and Has of an inactive union member must refuse; Which reads the declared discriminant; allocated sizes equal the node's; a struct / list field with a null slot reads as that field's own default (also when another member of the union shares the slot with a different default).",
+    "text": "For 7035 TLC-generated struct layouts (quick: every 8th, thorough: every 3rd, rotating with the seed) plus the repository's stored requests (aircraft, rpc, group, util; scopes generated only): the generator succeeds, its output is byte-identical across 4-13 runs and compiles; for every struct and every field (descending into groups) the setter is called with boundary values on all-zero and all-one backgrounds with marker pointers in every slot and the after-image must equal SetField(before) exactly; getters must return GetField on patterned bytes; New/Set/Has of pointer fields may change only their slot and the discriminant; getters and Has of an inactive union member must refuse; Which reads the declared discriminant; allocated sizes equal the node's; a struct / list field with a null slot reads as that field's own default (also when another member of the union shares the slot with a different default).",
     "note": "Schemas come from SchemaGen (filler, tested field of every kind with zero / non-zero default - struct and list defaults included -, plain / union / group / group-in-union / two union members sharing one slot, groups with up to four fields, follower) and the stored requests; interface (capability) typed fields are generated and compiled but their setters are not called. Trusted: TLC, Layout.tla as a reading of the schema language's field descriptors, harness/reqgen (builds the CodeGeneratorRequest from TLC's layouts).",
 }
 CHECKS["C19"] = {
